@@ -941,12 +941,22 @@ def needs4(t):
     return (t[0] == "prim" and PRIMS[t[1]] >= 4) or t[0] in ("str", "seq")
 
 
+INTS = ("y", "i8", "u8", "i16", "u16", "i32", "u32", "i64", "u64")
+LENIENT = [False]
+
+
+def _complete_like(t):
+    return t[0] in ("struct", "enum") or (t[0] == "prim" and t[1] in INTS)
+
+
 def ideal_project(tr, tw, v, top=True):
     """what a reader of type tr should see of the value v of the writer's type tw (independent of the Lean `project`;
     recursive: nested structures are projected too). Raises Incompat when the two types are not related by the
     evolution rules of DDS-XTypes 7.2.4 (same kind; structures: same extensibility, final = same members,
     appendable = one member list a prefix of the other, mutable = common members by id)."""
     k = tr[0]
+    if LENIENT[0] and not top and _complete_like(tr) and _complete_like(tw) and (tr[0] != "prim" or tw[0] != "prim"):
+        return v                       # what the code does: EkComplete against EkComplete / integer is never looked into
     if k != tw[0]:
         raise Incompat("kind")
     if k == "prim":
@@ -1020,6 +1030,15 @@ def strict_assignable(tr, tw):
             if ((not m[1] and m[3]) or m[2]) and m[0] not in other:
                 return False
     return True
+
+
+def lenient_assignable(tr, tw):
+    """strict_assignable, except that nested structure / enumeration types are not compared (finding D74)"""
+    LENIENT[0] = True
+    try:
+        return strict_assignable(tr, tw)
+    finally:
+        LENIENT[0] = False
 
 
 def nested_differences(tr, tw, ver, top=True, out=None, inside_mutable=False):
